@@ -15,6 +15,11 @@ type KnownFinding struct {
 	Sig      string `json:"sig"`
 	What     string `json:"what"`
 	Replay   string `json:"replay"` // stored reproducer relative to /verif; re-run on every check
+	// Scope "reproducer": the finding is the stored reproducer and nothing else — no violation met in a sweep is ever
+	// matched against it (the workloads are generated so that they keep away from the construct).
+	Scope string `json:"scope,omitempty"`
+	// AllLevels: the reproducer fails at every optimisation level, so "fails under another level" is not a new violation
+	AllLevels bool `json:"all_levels,omitempty"`
 }
 
 type KnownFile struct {
@@ -44,7 +49,7 @@ func sigMatch(pattern, sig string) bool {
 func (k *KnownFile) match(prop, inv, sig string) *KnownFinding {
 	for i := range k.Findings {
 		f := &k.Findings[i]
-		if f.Property == prop && f.Inv == inv && sigMatch(f.Sig, sig) {
+		if f.Scope != "reproducer" && f.Property == prop && f.Inv == inv && sigMatch(f.Sig, sig) {
 			return f
 		}
 	}
